@@ -211,6 +211,26 @@ Proof.
   intros H. unfold sum_min_write. cbn [leb RO ofZ]. destruct (Rleb s 0) eqn:E; [apply Rleb_true in E; lra | reflexivity].
 Qed.
 
+(* an explicit positive weight_sum_min is used as it is by both paths *)
+Lemma thresholds_agree wsm wmin :
+  0 < wsm -> sum_min_write RO (sum_min_fornav RO wsm wmin) = wsm /\ sum_min_write RO wsm = wsm.
+Proof.
+  intros H. split; [|apply sum_min_write_id; assumption].
+  unfold sum_min_fornav. cbn [eqb RO ofZ]. destruct (Reqb wsm (IZR (-1))) eqn:E.
+  - apply Reqb_true in E. lra.
+  - apply sum_min_write_id; assumption.
+Qed.
+(* the defaults: one-shot fornav thresholds at weight_min, the dask path at EPSILON *)
+Lemma thresholds_default wmin :
+  0 < wmin -> sum_min_write RO (sum_min_fornav RO (-1) wmin) = wmin /\ sum_min_write RO (-1) = eps32 RO.
+Proof.
+  intros H. split.
+  - unfold sum_min_fornav. cbn [eqb RO ofZ]. destruct (Reqb (-1) (IZR (-1))) eqn:E.
+    + apply sum_min_write_id; assumption.
+    + unfold Reqb in E. destruct (Req_EM_T (-1) (IZR (-1))); [discriminate | exfalso; apply n; reflexivity].
+  - unfold sum_min_write. cbn [leb RO ofZ]. destruct (Rleb (-1) 0) eqn:E; [reflexivity | apply Rleb_false in E; lra].
+Qed.
+
 Lemma write_cell_zero mwm smin : 0 < smin -> write_cell RO mwm smin 0 (0, 0) = None.
 Proof.
   intros H. rewrite write_cell_R. destruct (Rltb 0 smin) eqn:E; [reflexivity | apply Rltb_false in E; lra].
